@@ -329,7 +329,13 @@ def hook_corpus():
               # further shapes decided by the model's walk (Model.hook_graph); texts that put a pattern below a trait
               # holding a number are left out: changing that number makes the maintainer hook an int (C08's domain)
               "child.child", "child.nope", "nope", "nope.t_true", "child.items", "child:t_true,child.t_false",
-              "[child:t_true,child.t_false]", "child.[+tag,+other,t_none]", "[child].[t_zero]", "child:[t_true,+tag],child.*"]
+              "[child:t_true,child.t_false]", "child.[+tag,+other,t_none]", "[child].[t_zero]", "child:[t_true,+tag],child.*",
+              # "items" at run time: list, dict, set, a HasTraits object without a trait named items, errors on containers
+              "kids", "kids.items", "kids:items", "kids.items.t_zero", "kids:items:+tag", "kids.items:*", "table.items",
+              "table:items.+other", "table.items:t_none", "group.items", "group:items:t_true", "group.items.+tag",
+              "[kids,table,group].items", "[kids,table,group]:items:+tag", "child.items", "child.items.t_true",
+              "kids.t_true", "kids.+tag", "kids.*", "table.nope", "group:*", "kids.items.items", "kids.items.nope",
+              "[child,kids].items", "items.t_true", "kids . items . [t_true , +other]", "[kids.items,child].t_empty"]
     return [dict(kind="hook", s=t) for t in texts]
 
 
@@ -388,8 +394,10 @@ def describe(case, ob, code):
     which = 2 if 20 < code < 40 else 1
     clause = code - 20 if 20 < code < 40 else code
     if case["kind"] == "hook":
-        return "text %r registered on the probe objects: %s (fired for %r; 16*level + trait index, traits t_true t_false " \
-               "t_zero t_empty t_tuple t_none t_absent t_other child)" % (case["s"], KEY.get(clause, clause), ob.get("fired"))
+        return "text %r registered on the probe objects: %s (fired for %r; 16*object + index; objects 0 root, 1 child, " \
+               "2 kids list, 3-4 its items, 5 table dict, 6 its value, 7 group set, 8 its item; index 0-7 t_true t_false t_zero " \
+               "t_empty t_tuple t_none t_absent t_other, 8 child, 9 the container itself, 10 kids, 11 table, 12 group)" % (
+                   case["s"], KEY.get(clause, clause), ob.get("fired"))
     if case["kind"] == "expr":
         return "expression %s built through the API (style %d): %s (compile_expr: %s)" % (
             json.dumps(case["e"]), case.get("style", 0), KEY.get(clause, clause), json.dumps(ob)[:300])
